@@ -1266,3 +1266,147 @@ Qed.
 
 Theorem fw_C06_purged_stays : forall node es, fw_run node None es = (None, []).
 Proof. intros node es. induction es as [|e es IH]; cbn [fw_run fw_step]; [reflexivity|]. rewrite IH. reflexivity. Qed.
+
+(* ------------------------------------------------------------------------------------------ *)
+(* timed histories: the reception time of the stored item, and the same bundle handed in again *)
+(* ------------------------------------------------------------------------------------------ *)
+(* a duplicate of a stored bundle: nothing is transmitted, the stored copy and its reception time stay *)
+Theorem fw_dup_ignored node it b wall delay now copies keep :
+  fw_tstep node (Some it) (FwTRecv b wall delay now copies keep) = (Some it, []).
+Proof. reflexivity. Qed.
+
+Lemma fw_tlift_cases rx b s :
+  (s = None \/ s = Some b) -> fw_tlift rx s = None \/ fw_tlift rx s = Some {| ti_b := b; ti_rx := rx |}.
+Proof. intros [->| ->]; cbn; auto. Qed.
+
+(* while the bundle is stored, no event changes the stored copy or its reception time *)
+Theorem fw_titem_stable node it e st' outs :
+  fw_tstep node (Some it) e = (st', outs) -> st' = None \/ st' = Some it.
+Proof.
+  destruct it as [b rx]. destruct e as [b2 wall delay now copies keep|wall now copies keep|now]; cbn [fw_tstep ti_b ti_rx]; intros H.
+  - inversion H; auto.
+  - destruct (fw_step node (Some b) (FwEvRetry now (wall - rx) copies keep)) as [s o] eqn:E. inversion H; subst; clear H.
+    destruct (fw_step_inv node b _ _ _ _ (or_intror eq_refl) E) as [Hs _]. apply (fw_tlift_cases rx b s Hs).
+  - destruct (fw_step node (Some b) (FwEvClean now)) as [s o] eqn:E. inversion H; subst; clear H.
+    destruct (fw_step_inv node b _ _ _ _ (or_intror eq_refl) E) as [Hs _]. apply (fw_tlift_cases rx b s Hs).
+Qed.
+
+(* a retry at [wall] works on the stored copy with the residence time counted from ITS reception *)
+Theorem fw_tretry_residence node it wall now copies keep st' outs o :
+  fw_tstep node (Some it) (FwTRetry wall now copies keep) = (st', outs) -> In o outs ->
+  fo_res o = wall - ti_rx it /\ fo_now o = now /\ fo_copies o = copies
+  /\ fo_result o = fw_touch_result copies (fw_retry node now (wall - ti_rx it) (ti_b it)).
+Proof.
+  cbn [fw_tstep fw_step]. intros H. inversion H; subst; clear H. intros [<-|[]]. cbn. auto.
+Qed.
+
+Lemma fw_trun_app node es1 : forall st es2,
+  fw_trun node st (es1 ++ es2) =
+  let '(st1, o1) := fw_trun node st es1 in let '(st2, o2) := fw_trun node st1 es2 in (st2, o1 ++ o2).
+Proof.
+  induction es1 as [|e es1 IH]; intros st es2; cbn [fw_trun app].
+  - destruct (fw_trun node st es2); reflexivity.
+  - destruct (fw_tstep node st e) as [st1 o1]. rewrite IH.
+    destruct (fw_trun node st1 es1) as [st2 o2]. destruct (fw_trun node st2 es2) as [st3 o3]. rewrite app_assoc. reflexivity.
+Qed.
+
+(* a duplicate that arrives while the bundle is stored leaves no trace in the rest of the history:
+   everything transmitted later (in particular every age) is what it would be without it *)
+Theorem fw_dup_transparent node st es1 it o1 b wall delay now copies keep es2 :
+  fw_trun node st es1 = (Some it, o1) ->
+  fw_trun node st (es1 ++ FwTRecv b wall delay now copies keep :: es2) = fw_trun node st (es1 ++ es2).
+Proof.
+  intros H. rewrite !fw_trun_app, H. cbn [fw_trun fw_tstep]. destruct (fw_trun node (Some it) es2); reflexivity.
+Qed.
+
+(* every output of a timed history is computed from a bundle that was handed in (or was stored at the start) *)
+Definition fw_tsrc (st : option fw_titem) (es : list fw_tevent) : list bundle :=
+  match st with Some it => [ti_b it] | None => [] end ++ fw_thanded es.
+
+Lemma fw_tstep_src node st e st' outs :
+  fw_tstep node st e = (st', outs) ->
+  (forall o, In o outs -> exists b, In b (fw_tsrc st [e]) /\ fw_out_of node b o)
+  /\ (forall it', st' = Some it' -> In (ti_b it') (fw_tsrc st [e])).
+Proof.
+  destruct st as [[b rx]|].
+  - intros H. pose proof (fw_titem_stable _ _ _ _ _ H) as Hst. split.
+    + destruct e as [b2 wall delay now copies keep|wall now copies keep|now]; cbn [fw_tstep ti_b ti_rx] in H.
+      * inversion H; subst. intros o [].
+      * destruct (fw_step node (Some b) (FwEvRetry now (wall - rx) copies keep)) as [s o'] eqn:E. inversion H; subst; clear H.
+        destruct (fw_step_inv node b _ _ _ _ (or_intror eq_refl) E) as [_ Ho]. intros o Hi. exists b. split; [left; reflexivity|auto].
+      * destruct (fw_step node (Some b) (FwEvClean now)) as [s o'] eqn:E. inversion H; subst; clear H.
+        destruct (fw_step_inv node b _ _ _ _ (or_intror eq_refl) E) as [_ Ho]. intros o Hi. exists b. split; [left; reflexivity|auto].
+    + intros it' ->. destruct Hst as [Hst|Hst]; [discriminate|]. inversion Hst; subst. left. reflexivity.
+  - destruct e as [b2 wall delay now copies keep|wall now copies keep|now]; cbn [fw_tstep]; intros H.
+    + unfold fw_accept in H. inversion H; subst; clear H. split.
+      * intros o [<-|[]]. exists b2. split; [left; reflexivity|left; reflexivity].
+      * intros it' Hl. destruct (fw_store_after_inv b2 keep (fw_touch_result copies (fw_receive node now delay b2))) as [E|E];
+          rewrite E in Hl; cbn in Hl; [discriminate|]. inversion Hl; subst. left. reflexivity.
+    + inversion H; subst. split; [intros o []|intros it' Hd; discriminate].
+    + inversion H; subst. split; [intros o []|intros it' Hd; discriminate].
+Qed.
+
+Lemma fw_tsrc_cons st e es st1 :
+  (forall it', st1 = Some it' -> In (ti_b it') (fw_tsrc st [e])) ->
+  forall b, In b (fw_tsrc st1 es) -> In b (fw_tsrc st (e :: es)).
+Proof.
+  intros Hst b Hb. unfold fw_tsrc in *. apply in_app_or in Hb. destruct Hb as [Hb|Hb].
+  - destruct st1 as [it1|]; [|destruct Hb]. destruct Hb as [<-|[]]. specialize (Hst it1 eq_refl).
+    apply in_app_or in Hst. apply in_or_app. destruct Hst as [Hs|Hs]; [left; exact Hs|right].
+    destruct e; cbn in *; try contradiction. destruct Hs as [<-|[]]. left. reflexivity.
+  - apply in_or_app. right. destruct e; cbn; auto.
+Qed.
+
+Lemma fw_tsrc_head st e es b : In b (fw_tsrc st [e]) -> In b (fw_tsrc st (e :: es)).
+Proof.
+  unfold fw_tsrc. intros Hb. apply in_app_or in Hb. apply in_or_app. destruct Hb as [Hb|Hb]; [left; exact Hb|right].
+  destruct e; cbn in *; try contradiction. destruct Hb as [<-|[]]. left. reflexivity.
+Qed.
+
+Lemma fw_trun_src node es : forall st st' outs,
+  fw_trun node st es = (st', outs) ->
+  forall o, In o outs -> exists b, In b (fw_tsrc st es) /\ fw_out_of node b o.
+Proof.
+  induction es as [|e es IH]; intros st st' outs H o Ho; cbn [fw_trun] in H.
+  - inversion H; subst. destruct Ho.
+  - destruct (fw_tstep node st e) as [st1 o1] eqn:E1. destruct (fw_trun node st1 es) as [st2 o2] eqn:E2.
+    inversion H; subst; clear H. destruct (fw_tstep_src _ _ _ _ _ E1) as [Ho1 Hst1].
+    apply in_app_or in Ho. destruct Ho as [Ho|Ho].
+    + destruct (Ho1 o Ho) as (b & Hb & Hof). exists b. split; [apply fw_tsrc_head, Hb|exact Hof].
+    + destruct (IH _ _ _ E2 o Ho) as (b & Hb & Hof). exists b. split; [apply (fw_tsrc_cons st e es st1 Hst1), Hb|exact Hof].
+Qed.
+
+(* C06_faithful / C06_refuse for histories with duplicates, re-receptions and reception times *)
+Theorem fw_C06_timed_faithful :
+  forall node es st outs o b'',
+    fw_node_ok node = true ->
+    (forall b, In b (fw_thanded es) -> exists now0, fw_accepted now0 b) ->
+    fw_trun node None es = (st, outs) ->
+    In o outs -> fw_copies_ok (fo_copies o) -> fo_result o = FwSend b'' ->
+    exists b, In b (fw_thanded es)
+    /\ (enc_bundle b'' = Some (bundle_bytes b'')
+        /\ dec_bundle (fo_now o) (bundle_bytes b'') = Some (b'', [])
+        /\ primary_bytes (b_pri b'') = primary_bytes (b_pri b)
+        /\ payload_of b'' = payload_of b)
+    /\ check_valid (fo_now o) b'' = true
+    /\ fw_faithful node (fo_res o) (fw_is_some (fo_copies o)) b b''.
+Proof.
+  intros node es st outs o b'' Hn Hall Hh Ho Hc Hr.
+  destruct (fw_trun_src _ _ _ _ _ Hh o Ho) as (b & Hb & Hof). exists b. unfold fw_tsrc in Hb. cbn [app] in Hb.
+  destruct (Hall b Hb) as [now0 Ha]. split; [exact Hb|].
+  split; [exact (fw_send_parses _ _ _ _ _ Hn Ha Hof Hc Hr)|].
+  destruct (fw_send_facts _ _ _ _ _ Hn Ha Hof Hc Hr) as (Hv & _ & Hf). split; assumption.
+Qed.
+
+Theorem fw_C06_timed_refuse :
+  forall node es st outs o,
+    (forall b, In b (fw_thanded es) -> exists now0, fw_accepted now0 b) ->
+    fw_trun node None es = (st, outs) -> In o outs ->
+    exists b, In b (fw_thanded es) /\ fw_out_of node b o
+              /\ (fw_must_refuse (fo_now o) (fo_res o) b -> exists r, fo_result o = FwRefuse r).
+Proof.
+  intros node es st outs o Hall Hh Ho.
+  destruct (fw_trun_src _ _ _ _ _ Hh o Ho) as (b & Hb & Hof). exists b. unfold fw_tsrc in Hb. cbn [app] in Hb.
+  destruct (Hall b Hb) as [now0 Ha]. split; [exact Hb|]. split; [exact Hof|].
+  intros Hm. exact (fw_out_refuse _ _ _ _ Ha Hof Hm).
+Qed.
